@@ -291,9 +291,13 @@ func c08ListenerOwnVariables(c *Ctx) {
 		for _, b := range fn.Blocks {
 			for _, in := range b.Instrs {
 				if gi, ok := in.(*ssa.Go); ok {
-					if _, isMC := gi.Call.Value.(*ssa.MakeClosure); isMC && !byGo[gi] && InLoop(b) {
+					if !byGo[gi] && InLoop(b) {
 						n++
-						c.Ok("goroutine-own-variables", shortFn(fn)+" go#"+fmt.Sprint(goOrdinal(fn, gi)), p.InstrPos(gi), "captures no variable that is assigned again after the go statement")
+						detail := "arguments are evaluated at the go statement"
+						if _, isMC := gi.Call.Value.(*ssa.MakeClosure); isMC {
+							detail = "captures no variable that is assigned again after the go statement"
+						}
+						c.Ok("goroutine-own-variables", shortFn(fn)+" go#"+fmt.Sprint(goOrdinal(fn, gi)), p.InstrPos(gi), detail)
 					}
 				}
 			}
